@@ -339,7 +339,9 @@ def case_strategy(draw, modes=("full", "sparse", "pkgdump", "legacy"), embedded=
     return {"mode": mode, "platform": platform, "platforms": ["default"] + (["P"] if has_p else []),
             "vars": vars_, "blue": blue, "envs": envs, "components": comps, "status": status, "output": output,
             "appdeps": draw(st.lists(st.sampled_from(["app.application", "Other-Pkg"]), max_size=2, unique=True)),
-            "venvs": draw(st.lists(st.sampled_from(["venv1", "py-env"]), max_size=1))}
+            "venvs": draw(st.lists(st.sampled_from(["venv1", "py-env"]), max_size=1)),
+            # afterwards the same directory is updated with the description of the workflow minus its last stage
+            "redump": draw(st.integers(0, 2)) == 0}
 
 
 # --------------------------------------------------------------------------------------------------------------
